@@ -80,33 +80,7 @@ Definition appended (c : case) : list sample :=
   let all := flat_map snd (c_segs c) in
   if c_enc c =? 1 then map (fun s => mkS 0 (s_t s) (s_v s)) all else all.
 
-(* abstract cursor semantics of Next/Seek over the appended samples: [cur] is the sample the
-   iterator stands on, [rest] what is still ahead.  Seek t stays put if the current sample
-   already has timestamp >= t, otherwise advances to the first sample ahead with
-   timestamp >= t (ValNone, standing on the last sample, if there is none). *)
-Fixpoint seek_rest (t : Z) (cur : option sample) (rest : list sample) : option sample * list sample * bool :=
-  match rest with
-  | [] => (cur, [], false)
-  | x :: r => if t <=? s_t x then (Some x, r, true) else seek_rest t (Some x) r
-  end.
-
-Fixpoint spec_script (cur : option sample) (rest : list sample) (acts : list act) : list obs1 :=
-  match acts with
-  | [] => []
-  | ANext :: r =>
-      match rest with
-      | [] => None :: spec_script cur rest r
-      | x :: rest' => Some x :: spec_script (Some x) rest' r
-      end
-  | ASeek t :: r =>
-      match cur with
-      | Some c0 => if t <=? s_t c0 then Some c0 :: spec_script cur rest r
-                   else let '(cur', rest', ok) := seek_rest t cur rest in
-                        (if ok then cur' else None) :: spec_script cur' rest' r
-      | None => let '(cur', rest', ok) := seek_rest t cur rest in
-                (if ok then cur' else None) :: spec_script cur' rest' r
-      end
-  end.
+(* the abstract cursor semantics of Next/Seek (seek_rest, spec_script) is defined in model/Xor.v *)
 
 Definition holds (c : case) : bool :=
   let exp := appended c in
